@@ -93,6 +93,7 @@ def enum_strategy(n_max=6, max_deg=6, max_terms=6):
                 "pre": st.tuples(gen.pick(("to_qubo", 1), ("to_quso", 1), ("to_pubo", 1), ("to_puso", 1)),
                                  gen.pick((2, 2), (3, 2), (4, 1))).map(list),
                 "edit": st.tuples(st.integers(0, 7), st.sampled_from([1, -1, 0.5, -2])).map(list),
+                "ctype": gen.CTYPE,
             })
         return st.integers(0, 9).flatmap(lambda r: gen.label_pool(False, 3 if r else 1, n_max)).flatmap(for_labels)
     return st.sampled_from(KINDS).flatmap(for_kind)
@@ -102,7 +103,7 @@ def enum_strategy(n_max=6, max_deg=6, max_terms=6):
 
 def build_model(qv, spec):
     kind = spec["kind"]
-    M = gen.build_from_dict(qv, kind, [[tuple(k), v] for k, v in spec["terms"]])
+    M = gen.build_from_dict(qv, kind, [[tuple(k), gen.wrap_number(v, spec.get("ctype"))] for k, v in spec["terms"]])
     c = spec.get("constraint")
     if c:
         rel, cterms = c
@@ -256,6 +257,8 @@ def _run_enum(qv, spec, rec):
         classes.append("with_constraint")
     if remapped:
         classes.append(remapped)
+    if spec.get("ctype") not in (None, "plain"):
+        classes.append("ctype=" + spec["ctype"])
     mp = M.mapping
     rmp = M.reverse_mapping
     if sorted(mp.values()) != list(range(n)):
@@ -359,6 +362,7 @@ def cert_strategy():
                 "pre": st.tuples(gen.pick(("to_qubo", 1), ("to_quso", 1), ("to_pubo", 1), ("to_puso", 1)),
                                  gen.pick((2, 2), (3, 2), (4, 1))).map(list),
                 "edit": st.tuples(st.integers(0, 7), st.sampled_from([1, -1, 0.5, -2])).map(list),
+                "ctype": gen.CTYPE,
             })
         return st.sampled_from(BIG_POOLS).flatmap(
             lambda p: st.integers(4, 12).map(lambda n: p[:n])).flatmap(for_labels)
